@@ -24,7 +24,11 @@ Atoms == { x, y, a, one,
            Coll(P(x, <<"cs">>), "any", Lam(Id0("k"), Cmp("eq", P(Id0("k"), <<"n">>), P(x, <<"m">>)))),
            Coll(P(x, <<"p", "cs">>), "all", Lam(y, Cmp("eq", P(y, <<"n", "q">>), P(x, <<"m", "q">>)))),
            Coll(P(y, <<"cs">>), "any", Lam(Id0("k"), Cmp("eq", P(Id0("k"), <<"x">>), P(x, <<"k">>)))),
-           Call(Id0("x"), <<P(x, <<"a">>)>>), Call(Id(<<"x">>, "f"), <<Named(x, P(x, <<"a">>))>>) }
+           Call(Id0("x"), <<P(x, <<"a">>)>>), Call(Id(<<"x">>, "f"), <<Named(x, P(x, <<"a">>))>>),
+           \* explicitly grouped right operands with the operator of their parent (a rewrite must keep the grouping)
+           Bin("sub", P(x, <<"a">>), Bin("sub", P(x, <<"a", "b">>), one)), Bin("div", one, Bin("div", P(x, <<"a">>), y)),
+           Bool("and", Cmp("eq", P(x, <<"a">>), one), Bool("and", Cmp("eq", y, one), Cmp("eq", P(x, <<"a">>), y))),
+           Bool("or", Cmp("eq", y, one), Bool("or", Cmp("eq", P(y, <<"a">>), one), Cmp("eq", a, y))) }
 Expand(s) == { <<0, z>> : z \in Atoms }
        \cup { <<1, BinNode(o, E, E)>> : o \in {"eq", "and", "add"} }
        \cup { <<1, Un(o, E)>> : o \in PreOps }
